@@ -54,11 +54,20 @@ def run(ctx, model):
     ctx.exhaustive = True
     ci = model.cls(ESS, "Date")
     f_init = ci.methods["__init__"]
-    f_fmt = model.method(ESS, "Date", "__date_formats")
-    f_pre = model.method(ESS, "Date", "__date_pre")
-    # ---------------- formats
-    k, fmts = FL.call_static(model, "Date", "__date_formats")
     want = documented_formats()
+    # the two private helpers are used when they exist under their pinned names (sharper reports); otherwise the same
+    # facts are obtained through the public constructor (Date([fmt], True) is the format's own pattern; Date() selects all)
+    try:
+        f_fmt = model.method(ESS, "Date", "__date_formats")
+        f_pre = model.method(ESS, "Date", "__date_pre")
+        k, fmts = FL.call_static(model, "Date", "__date_formats")
+        per_format = lambda fmt: FL.call_static(model, "Date", "__date_pre", [fmt])
+    except AnalysisError:
+        f_fmt = f_pre = f_init
+        k, fmts = "value", list(want)
+        per_format = lambda fmt: FL.build(model, "Date", [[fmt], True])
+        ctx.note("Date's private helpers are not under their pinned names: formats are evaluated through the constructor")
+    # ---------------- formats
     ctx.instance("R-DATE-FORMATS", key="list", sample=f"{len(fmts) if isinstance(fmts, list) else fmts!r} formats: {list(fmts)[:6] if isinstance(fmts, list) else ''}...")
     if k != "value" or not isinstance(fmts, list):
         raise AnalysisError("__date_formats did not evaluate to a list")
@@ -73,7 +82,7 @@ def run(ctx, model):
     for fmt in want:
         sep = "-" if "-" in fmt else "/"
         toks = fmt.split(sep)
-        k, t = FL.call_static(model, "Date", "__date_pre", [fmt])
+        k, t = per_format(fmt)
         inp = f"format {fmt}"
         if k != "term":
             ctx.instance("R-DATE-SKELETON", key=fmt)
